@@ -27,7 +27,7 @@
     needs two pre-emptions within a few instructions), hence no code change; see docs/pipe.md. *)
 From Coq Require Import List NArith ZArith Bool String.
 Require Import RV.Model.Base RV.Model.PipeQueue RV.Model.Pipe RV.Model.PipeLts.
-Require Import RV.Proofs.PipeLtsBasics RV.Proofs.PipeReaderProofs RV.Proofs.PipeExclusive RV.Proofs.PipeRouting.
+Require Import RV.Proofs.PipeLtsBasics RV.Proofs.PipeReaderProofs RV.Proofs.PipeExclusive RV.Proofs.PipeRouting RV.Proofs.PipeHistory.
 Import ListNotations.
 Open Scope N_scope.
 
@@ -118,6 +118,32 @@ Proof.
 Qed.
 Print Assumptions C01_no_protocol_panic.
 
+(** No reply is lost, duplicated or handed to another slot: [p_wlog] is the list of queue slots in the
+    order the writer put them on the wire, [expected] lists for them, in wire order, the triples
+    (owner of the slot, index in the slot, reply of the server to that very command); [p_dlog] is the
+    list of triples (owner, index, message) the reader has stored so far, in order.  The log is always an
+    initial segment of [expected]; while the reader runs, the rest is exactly what is still due to the
+    slot being filled (from index ff on) followed by the written slots not yet taken. *)
+Theorem C01_no_loss_no_dup_partial : forall g sched s,
+  server_ok g -> g_ver g <> 6%Z -> (g_kind g = Ring \/ g_putfail0 g = false) ->
+  prun g sched (p_init g) = Some s ->
+  (exists rest, expected g (p_wlog s) = p_dlog s ++ rest) /\
+  (forall r, p_b s = BRead r ->
+     expected g (p_wlog s) =
+     p_dlog s ++ exp_from g (r_owner r) (r_ff r) (skipn (r_ff r) (r_multi r)) ++ flat_map (exp_slot g) (q_wr (p_q s))).
+Proof. intros g sched s Hs Hv Hg H. exact (no_loss_no_dup g Hs Hv Hg sched s H). Qed.
+Print Assumptions C01_no_loss_no_dup_partial.
+
+Theorem C01_no_loss_no_dup : forall g sched s,
+  g_kind g = Ring -> server_ok g -> g_ver g <> 6%Z ->
+  prun g sched (p_init g) = Some s ->
+  (exists rest, expected g (p_wlog s) = p_dlog s ++ rest) /\
+  (forall r, p_b s = BRead r ->
+     expected g (p_wlog s) =
+     p_dlog s ++ exp_from g (r_owner r) (r_ff r) (skipn (r_ff r) (r_multi r)) ++ flat_map (exp_slot g) (q_wr (p_q s))).
+Proof. intros g sched s Hk Hs Hv H. exact (no_loss_no_dup g Hs Hv (or_introl Hk) sched s H). Qed.
+Print Assumptions C01_no_loss_no_dup.
+
 (** non-vacuity: two callers, the first runs synchronously, the second (a batch with a 2-channel
     subscribe and an unsubscribe) is queued, the pipe switches to background mode, a push arrives in
     between; both calls return their own replies. *)
@@ -140,6 +166,12 @@ Example C01_nonvacuous :
              (prun demo_cfg demo_sched (p_init demo_cfg)) =
   Some (1%nat, Some [RMsg (Msg 36 [10] 0 [])],
         Some [RMsg (Msg 36 [20] 0 []); RMsg empty_msg; RMsg pong_msg]).
+Proof. vm_compute. reflexivity. Qed.
+
+Example C01_nonvacuous_log :
+  option_map (fun s => (p_dlog s, expected demo_cfg (p_wlog s))) (prun demo_cfg demo_sched (p_init demo_cfg)) =
+  Some ([(2, 0%nat, Msg 36 [20] 0 []); (2, 1%nat, empty_msg); (2, 2%nat, pong_msg)],
+        [(2, 0%nat, Msg 36 [20] 0 []); (2, 1%nat, empty_msg); (2, 2%nat, pong_msg)]).
 Proof. vm_compute. reflexivity. Qed.
 
 Example C01_nonvacuous_server_ok :
